@@ -250,6 +250,12 @@ def regenerate_and_build(targets=('PyTRS', 'driver')):
                 pass
             with open(stamp, 'w') as f:
                 f.write(cur)
+        # definitions the translator could not re-derive from the source and carried over from the committed reference
+        try:
+            fb = json.load(open(os.path.join(LEAN_DIR, 'PyTRS', 'Gen', 'fallback.json')))
+            res.gen_fallback, res.gen_notes = fb.get('fallback', []), fb.get('notes', [])
+        except Exception:  # noqa
+            res.gen_fallback, res.gen_notes = [], []
         # what differs from the committed reference copy of Gen/
         try:
             d = subprocess.run(['git', '-C', VERIF, 'diff', '--stat', '--', 'lean/PyTRS/Gen/Patterns.lean',
